@@ -786,6 +786,41 @@ def split_tuple_assign(fn):
     return n[0]
 
 
+def split_chained_assign(fn):
+    """a = X[k] = e  ->  a = e; X[k] = a      (a name among the targets that no other target reads; e is evaluated once, as before).
+    `i = j = 1` with a literal stays as it is: nothing is gained by splitting it."""
+    n = [0]
+
+    def block(stmts):
+        out = []
+        for st in stmts:
+            for field in ('body', 'orelse', 'finalbody'):
+                b = getattr(st, field, None)
+                if isinstance(b, list) and b and isinstance(b[0], ast.stmt):
+                    setattr(st, field, block(b))
+            for hnd in getattr(st, 'handlers', []) or []:
+                hnd.body = block(hnd.body)
+            if isinstance(st, ast.Assign) and len(st.targets) > 1 and not isinstance(st.value, ast.Constant):
+                names = [t for t in st.targets if isinstance(t, ast.Name)]
+                others = [t for t in st.targets if not isinstance(t, ast.Name)]
+                if names and all(isinstance(t, (ast.Subscript, ast.Attribute)) for t in others):
+                    first = names[0]
+                    read_elsewhere = any(isinstance(x, ast.Name) and x.id == first.id for t in others for x in ast.walk(t))
+                    if not read_elsewhere:
+                        a = ast.copy_location(ast.Assign(targets=[first], value=st.value), st)
+                        out.append(a)
+                        for t in st.targets:
+                            if t is first:
+                                continue
+                            out.append(ast.copy_location(ast.Assign(targets=[t], value=ast.Name(id=first.id, ctx=ast.Load())), st))
+                        n[0] += 1
+                        continue
+            out.append(st)
+        return out
+    fn.body = block(fn.body)
+    return n[0]
+
+
 def propagate_child_aliases(fn):
     """x = N.children[k]  (x bound once, N never rebound)  ->  every later read of x is N.children[k]"""
     stores = {}
@@ -912,6 +947,131 @@ class _FlattenStar(ast.NodeTransformer):
         return n
 
 
+class _RepeatToList(ast.NodeTransformer):
+    """X.extend(itertools.repeat(c, n)) / list(repeat(c, n)) / deque(repeat(c, n), ..)  ->  the same call over  [c] * n
+    (a finite repeat consumed at once is that list; an unbounded repeat(c) is left alone)"""
+    count = 0
+
+    @staticmethod
+    def _rep(e):
+        if isinstance(e, ast.Call) and len(e.args) == 2 and not e.keywords and \
+                ((isinstance(e.func, ast.Attribute) and e.func.attr == 'repeat' and isinstance(e.func.value, ast.Name) and e.func.value.id == 'itertools')
+                 or (isinstance(e.func, ast.Name) and e.func.id == 'repeat')):
+            return ast.copy_location(ast.BinOp(left=ast.List(elts=[e.args[0]], ctx=ast.Load()), op=ast.Mult(), right=e.args[1]), e)
+        return None
+
+    def visit_Call(self, n):
+        self.generic_visit(n)
+        consumer = (isinstance(n.func, ast.Attribute) and n.func.attr in ('extend', 'extendleft')) or \
+                   (isinstance(n.func, ast.Name) and n.func.id in ('list', 'tuple', 'deque')) or \
+                   (isinstance(n.func, ast.Attribute) and n.func.attr == 'deque')
+        if consumer and n.args:
+            r = self._rep(n.args[0])
+            if r is not None:
+                n.args[0] = r
+                _RepeatToList.count += 1
+        return n
+
+
+class _UnrollRangeComp(ast.NodeTransformer):
+    """[E(i) for i in range(C)]  ->  [E(0), .., E(C-1)]   for a literal C <= 4 (what binding `arity = 2` of an extracted helper leaves behind)"""
+    count = 0
+
+    def visit_ListComp(self, n):
+        self.generic_visit(n)
+        if len(n.generators) != 1:
+            return n
+        g = n.generators[0]
+        if g.ifs or g.is_async or not isinstance(g.target, ast.Name):
+            return n
+        it = g.iter
+        if not (isinstance(it, ast.Call) and isinstance(it.func, ast.Name) and it.func.id == 'range' and len(it.args) == 1 and not it.keywords
+                and isinstance(it.args[0], ast.Constant) and type(it.args[0].value) is int and 0 <= it.args[0].value <= 4):
+            return n
+        var = g.target.id
+        if any(isinstance(x, ast.Name) and x.id == var and not isinstance(x.ctx, ast.Load) for x in ast.walk(n.elt)) \
+                or any(isinstance(x, (ast.Lambda, ast.ListComp, ast.SetComp, ast.DictComp, ast.GeneratorExp, ast.NamedExpr)) for x in ast.walk(n.elt)):
+            return n
+        elts = [_Subst({}, {var: ast.Constant(value=i)}).visit(copy.deepcopy(n.elt)) for i in range(it.args[0].value)]
+        _UnrollRangeComp.count += 1
+        return ast.copy_location(ast.List(elts=elts, ctx=ast.Load()), n)
+
+
+def split_display_locals(fn):
+    """x = [e0, .., ek]  (x bound once, never stored into, read only as `*x` in a call or `x[<literal>]`)
+       ->  x__0 = e0; ..; x__k = ek   and   f(*x) -> f(x__0, .., x__k),  x[i] -> x__i.      The order of evaluation is kept."""
+    stores, loads = {}, {}
+    parent = {}
+    for n in ast.walk(fn):
+        for c in ast.iter_child_nodes(n):
+            parent[id(c)] = n
+        if isinstance(n, ast.Name):
+            (loads if isinstance(n.ctx, ast.Load) else stores).setdefault(n.id, []).append(n)
+    cands = {}
+
+    def scan(stmts):
+        for st in stmts:
+            if isinstance(st, ast.Assign) and len(st.targets) == 1 and isinstance(st.targets[0], ast.Name) and isinstance(st.value, (ast.List, ast.Tuple)) \
+                    and st.value.elts and not any(isinstance(e, ast.Starred) for e in st.value.elts) and len(stores.get(st.targets[0].id, ())) == 1:
+                cands[st.targets[0].id] = st
+            for field in ('body', 'orelse', 'finalbody'):
+                b = getattr(st, field, None)
+                if isinstance(b, list) and b and isinstance(b[0], ast.stmt) and not isinstance(st, (ast.FunctionDef, ast.ClassDef, ast.For, ast.While)):
+                    scan(b)
+    scan(fn.body)
+    done = 0
+    for name, st in list(cands.items()):
+        k = len(st.value.elts)
+        uses = loads.get(name, [])
+        ok = bool(uses)
+        for u in uses:
+            p = parent.get(id(u))
+            if isinstance(p, ast.Starred) and isinstance(parent.get(id(p)), ast.Call) and p in parent[id(p)].args:
+                continue
+            if isinstance(p, ast.Subscript) and p.value is u and isinstance(p.ctx, ast.Load) and isinstance(p.slice, ast.Constant) and type(p.slice.value) is int \
+                    and 0 <= p.slice.value < k:
+                continue
+            ok = False
+        if not ok:
+            continue
+        names = ['%s__%d' % (name, i) for i in range(k)]
+
+        class T(ast.NodeTransformer):
+            def visit_Call(self, n):
+                self.generic_visit(n)
+                args = []
+                for a in n.args:
+                    if isinstance(a, ast.Starred) and isinstance(a.value, ast.Name) and a.value.id == name:
+                        args.extend(ast.Name(id=x, ctx=ast.Load()) for x in names)
+                    else:
+                        args.append(a)
+                n.args = args
+                return n
+
+            def visit_Subscript(self, n):
+                self.generic_visit(n)
+                if isinstance(n.value, ast.Name) and n.value.id == name and isinstance(n.slice, ast.Constant):
+                    return ast.copy_location(ast.Name(id=names[n.slice.value], ctx=ast.Load()), n)
+                return n
+
+        def block(stmts):
+            out = []
+            for s in stmts:
+                if s is st:
+                    for x, e in zip(names, st.value.elts):
+                        out.append(ast.copy_location(ast.Assign(targets=[ast.Name(id=x, ctx=ast.Store())], value=e), st))
+                    continue
+                for field in ('body', 'orelse', 'finalbody'):
+                    b = getattr(s, field, None)
+                    if isinstance(b, list) and b and isinstance(b[0], ast.stmt):
+                        setattr(s, field, block(b))
+                out.append(T().visit(s))
+            return out
+        fn.body = block(fn.body)
+        done += 1
+    return done
+
+
 # ====================================================================================================== driver
 def lower_package(trees):
     """trees: {module name: ast.Module}; rewritten in place.  -> statistics"""
@@ -988,10 +1148,19 @@ def lower_package(trees):
                     if isinstance(st, ast.ClassDef):
                         st.body = [s2 for s2 in st.body if not (isinstance(s2, ast.FunctionDef) and s2.name in dead)] or [ast.Pass()]
         stats['removed'] = sorted(dead)
+    for tree in trees.values():
+        _RepeatToList().visit(tree)
     if stats['inlined']:
         for tree in trees.values():
             _FlattenStar().visit(tree)
             _FoldConstants().visit(tree)
+            _UnrollRangeComp().visit(tree)
+        stats['display_locals'] = 0
+        for tree in trees.values():
+            for st in tree.body:
+                fns = [st] if isinstance(st, ast.FunctionDef) else ([s2 for s2 in st.body if isinstance(s2, ast.FunctionDef)] if isinstance(st, ast.ClassDef) else [])
+                for fn in fns:
+                    stats['display_locals'] += split_display_locals(fn)
     # class-level method aliases  `visitPow = visitAddition`  become definitions of their own (the same function under another name)
     stats['method_alias'] = 0
     for tree in trees.values():
@@ -1016,10 +1185,12 @@ def lower_package(trees):
             st.body = new_body
     stats['tuple_assign'] = 0
     stats['child_alias'] = 0
+    stats['chained_assign'] = 0
     for tree in trees.values():
         for st in tree.body:
             fns = [st] if isinstance(st, ast.FunctionDef) else ([s2 for s2 in st.body if isinstance(s2, ast.FunctionDef)] if isinstance(st, ast.ClassDef) else [])
             for fn in fns:
+                stats['chained_assign'] += split_chained_assign(fn)
                 stats['tuple_assign'] += split_tuple_assign(fn)
                 stats['child_alias'] += propagate_child_aliases(fn)
     for tree in trees.values():
